@@ -856,11 +856,18 @@ states.truncate(states.len() - {num_fields});
             .iter()
             .map(|nonterminal| {
                 let nonterminal_name = nonterminal.name();
+                // `Self::Error` is ambiguous if the enum has a variant named `Error`.
+                let error_type = match nonterminal {
+                    Nonterminal::Enum(e) if e.variants.iter().any(|v| v.name.name == "Error") => {
+                        node_enum_name.as_str()
+                    }
+                    _ => "Self::Error",
+                };
                 format!(
                     r#"impl TryFrom<{node_enum_name}> for {nonterminal_name} {{
     type Error = {node_enum_name};
 
-    fn try_from(node: {node_enum_name}) -> Result<Self, Self::Error> {{
+    fn try_from(node: {node_enum_name}) -> Result<Self, {error_type}> {{
         match node {{
             {node_enum_name}::{nonterminal_name}(n) => Ok(n),
             _ => Err(node),
